@@ -38,7 +38,7 @@ var parserOptNames = []string{"report", "fail", "lax", "collapse", "acceptInvali
 	"preGsb", "preSem", "postGsb"}
 
 // canonicalizer options, by name
-var canonOptNames = []string{"rmUser", "rmPort", "rmFrag", "sortKeys", "sortParam", "defHttp", "defSc", "repeated"}
+var canonOptNames = []string{"rmUser", "rmPort", "rmFrag", "sortKeys", "sortParam", "defHttp", "defSc", "defFile", "repeated"}
 
 func init() {
 	o := optByName
@@ -78,6 +78,8 @@ func init() {
 	o["sortParam"] = func() url.ParserOption { return canonicalizer.WithSortQuery(canonicalizer.SortParameter) }
 	o["defHttp"] = func() url.ParserOption { return canonicalizer.WithDefaultScheme("http") }
 	o["defSc"] = func() url.ParserOption { return canonicalizer.WithDefaultScheme("sc") }
+	o["defFile"] = func() url.ParserOption { return canonicalizer.WithDefaultScheme("file") }
+	o["defWss"] = func() url.ParserOption { return canonicalizer.WithDefaultScheme("wss") }
 	o["repeated"] = canonicalizer.WithRepeatedPercentDecoding
 }
 
